@@ -130,6 +130,10 @@ def prepare(root, seed):
                            ("boot-noconfig-app", ["env_app"], None), ("boot-noconfig-x-unknown", ["env_x"], None)):
         ops.append({"op": "boot", "id": oid, "files": [f"{root}/{f}.suit" for f in files], "soc": "nrf54h20",
                     "base": 0x2000, "config": f"{root}/{kc}.config" if kc else None})
+    # --- update candidate ---------------------------------------------------------------------------------------
+    for k in range(3):
+        ops.append({"op": "update", "id": f"update-{k}", "src": f"{root}/e{k}.suit", "uci": [0x0E1EF340, 0xFFF0, 0][k],
+                    "dfu": [0x0E100000, 0x10000 - 8, 0x1000][k], "caches": [6, 0, 1][k]})
     # --- MPI ----------------------------------------------------------------------------------------------
     for k in range(4):
         ops.append({"op": "mpi-generate", "id": f"mpi-generate-{k}", "vendor": ["nordicsemi.com", "acme.org", "中", ""][k],
@@ -237,6 +241,8 @@ def prepare(root, seed):
             (2, mcbor.enc([mcbor.enc([-16, hashlib.sha256(mcbor.enc(man)).digest()])])), (3, man), ("#pl", fw[:40])])))
         rebuild(f"rebuild-cache-envelope-{v}", {"withpl.suit": {"hex": withpl.hex()}},
                 {"op": "cache-envelope", "src": "{MUT}/withpl.suit", "eb": 8, "omit": None, "dep": None})
+        rebuild(f"rebuild-update-{v}", {"env.suit": {"hex": env.hex()}},
+                {"op": "update", "src": "{MUT}/env.suit", "uci": 0x0E1EF340, "dfu": 0x0E100000, "caches": 2})
         rebuild(f"rebuild-encrypt-{v}", {"fw.bin": {"hex": fw.hex()}},
                 {"op": "encrypt", "src": "{MUT}/fw.bin", "kid": 3, "keys": f"{root}/keys", "alg": "sha-256"})
     # --- failing operations (outcome class must not depend on the history either) -------------------------------
@@ -310,6 +316,12 @@ def run_op(spec, outdir):
             ImageCreator.create_files_for_boot(spec["files"], outdir, spec["base"], spec.get("config"), spec["soc"])
             for f in sorted(os.listdir(outdir)):
                 outs[f] = _sha(open(os.path.join(outdir, f), "rb").read())
+        elif op == "update":
+            from suit_generator.cmd_image import ImageCreator
+            st, pt = os.path.join(outdir, "storage.hex"), os.path.join(outdir, "partition.hex")
+            ImageCreator.create_files_for_update(spec["src"], st, pt, spec["uci"], spec["dfu"], spec["caches"])
+            outs["storage"] = _sha(open(st, "rb").read())
+            outs["partition"] = _sha(open(pt, "rb").read())
         elif op == "mpi-generate":
             from suit_generator.cmd_mpi import MpiGenerator
             dst = os.path.join(outdir, "o.hex")
